@@ -684,7 +684,82 @@ def _ifexp_statements(fn):
             b[:] = out
 
 
+def _match_statements(fn):
+    """E23: `match S: case P [if G]: B ...` is written as the if / elif chain it stands for.  Value patterns (literals, dotted
+    names) test `S == V`, class patterns without sub-patterns `isinstance(S, C)`, `None` / `True` / `False` test identity,
+    or-patterns are disjunctions, `_` and a bare capture always match (a capture binds the name first).  Any other pattern is
+    kept as an opaque test `__match__(S, '<pattern>')` and the names it binds as `name = __capture__(S)`: the structure of the
+    statement - which body runs under which case, in order, at most one - is what the analyses need."""
+    if not hasattr(ast, "Match") or "E23" in _SKIP:
+        return
+    import copy as _copy
+
+    def test_of(pat, subj):
+        """(test expression or None for always-true, [capture assignments])"""
+        if isinstance(pat, ast.MatchValue):
+            return ast.Compare(left=_copy.deepcopy(subj), ops=[ast.Eq()], comparators=[pat.value]), []
+        if isinstance(pat, ast.MatchSingleton):
+            return ast.Compare(left=_copy.deepcopy(subj), ops=[ast.Is()], comparators=[ast.Constant(value=pat.value)]), []
+        if isinstance(pat, ast.MatchClass) and not pat.patterns and not pat.kwd_patterns:
+            return ast.Call(func=ast.Name(id="isinstance", ctx=ast.Load()), args=[_copy.deepcopy(subj), pat.cls], keywords=[]), []
+        if isinstance(pat, ast.MatchAs) and pat.pattern is None:
+            if pat.name is None:
+                return None, []
+            return None, [ast.Assign(targets=[ast.Name(id=pat.name, ctx=ast.Store())], value=_copy.deepcopy(subj), type_comment=None)]
+        if isinstance(pat, ast.MatchAs) and pat.pattern is not None and pat.name is not None:
+            t, caps = test_of(pat.pattern, subj)
+            return t, caps + [ast.Assign(targets=[ast.Name(id=pat.name, ctx=ast.Store())], value=_copy.deepcopy(subj), type_comment=None)]
+        if isinstance(pat, ast.MatchOr):
+            parts = [test_of(p_, subj) for p_ in pat.patterns]
+            if all(c == [] for (_t, c) in parts):
+                if any(t is None for (t, _c) in parts):
+                    return None, []
+                return ast.BoolOp(op=ast.Or(), values=[t for (t, _c) in parts]), []
+        names = sorted({x.name for x in ast.walk(pat) if isinstance(x, (ast.MatchAs, ast.MatchStar)) and x.name} |
+                       {x.rest for x in ast.walk(pat) if isinstance(x, ast.MatchMapping) and x.rest})
+        caps = [ast.Assign(targets=[ast.Name(id=n_, ctx=ast.Store())],
+                           value=ast.Call(func=ast.Name(id="__capture__", ctx=ast.Load()), args=[_copy.deepcopy(subj)], keywords=[]), type_comment=None) for n_ in names]
+        return ast.Call(func=ast.Name(id="__match__", ctx=ast.Load()), args=[_copy.deepcopy(subj), ast.Constant(value=ast.unparse(pat))], keywords=[]), caps
+
+    for n in ast.walk(fn):
+        for b in _blocks(n):
+            out = []
+            for s in b:
+                if not isinstance(s, ast.Match):
+                    out.append(s)
+                    continue
+                subj = s.subject
+                pre = []
+                if not isinstance(subj, (ast.Name, ast.Attribute, ast.Constant)):
+                    tmp = ast.Name(id="__subject_%d__" % getattr(s, "lineno", 0), ctx=ast.Store())
+                    pre.append(ast.copy_location(ast.Assign(targets=[tmp], value=subj, type_comment=None), s))
+                    subj = ast.Name(id=tmp.id, ctx=ast.Load())
+                chain = None
+                for case in reversed(s.cases):
+                    t, caps = test_of(case.pattern, subj)
+                    body = [ast.copy_location(c_, case.pattern) for c_ in caps] + list(case.body)
+                    if case.guard is not None:
+                        if caps:
+                            # the guard reads the captures: bind them inside the pattern test's branch, then test the guard
+                            inner = ast.copy_location(ast.If(test=case.guard, body=list(case.body), orelse=[chain] if chain is not None and False else []), case.pattern)
+                            body = [ast.copy_location(c_, case.pattern) for c_ in caps] + [inner]
+                            # (a failing guard falls through to the later cases only approximately here: keep them reachable)
+                            if chain is not None:
+                                inner.orelse = [_copy.deepcopy(chain)] if isinstance(chain, ast.stmt) else []
+                        else:
+                            t = case.guard if t is None else ast.BoolOp(op=ast.And(), values=[t, case.guard])
+                    if t is None:
+                        # irrefutable: the chain ends here
+                        chain = ast.copy_location(ast.If(test=ast.Constant(value=True), body=body, orelse=[]), case.pattern)
+                    else:
+                        chain = ast.copy_location(ast.If(test=t, body=body, orelse=[chain] if chain is not None else []), case.pattern)
+                out += pre + ([chain] if chain is not None else [])
+            b[:] = out
+    ast.fix_missing_locations(fn)
+
+
 def _canon_function(fn):
+    _match_statements(fn)
     _plain_assigns(fn)
     for _round in range(4):   # an arm may itself be a conditional expression with a call
         before_ = sum(1 for x in ast.walk(fn) if isinstance(x, ast.IfExp))
